@@ -122,14 +122,18 @@ def check_undo(crate, rep, cfg):
             # the helper add_file returns (key, previous) and the closure pushes it
             af = crate.one("tera::Tera::add_file")
             atr = Tracer(af)
-            ok = False
-            for bb, t in find_calls(af, ["std::collections::HashMap::<K, V, S, A>::insert", "std::collections::HashMap::<K, V, S>::insert"]):
-                for b2, idx, s in find_aggs(af, "std::result::Result", "Ok"):
-                    op = s["rv"]["ops"][0]
-                    leaves = atr.place(op["pl"], [".1"]) if op["k"] in ("copy", "move") else set()
-                    if any(l.kind == "call" and l.detail[2] == bb for l in leaves):
-                        ok = True
-            rep.add("C10.UNDO", "C10.UNDO:add_file:returns-previous", ok, af.where(0), "add_file returns the previous value of the entry it replaced" + ("" if ok else " — VIOLATED"))
+            ins_blocks = [bb for bb, t in find_calls(af, ["std::collections::HashMap::<K, V, S, A>::insert", "std::collections::HashMap::<K, V, S>::insert"])]
+            oks_ = list(find_aggs(af, "std::result::Result", "Ok"))
+            ok = bool(ins_blocks) and bool(oks_)
+            for b2, idx, s in oks_:
+                op = s["rv"]["ops"][0]
+                leaves = atr.place(op["pl"], [".1"]) if op["k"] in ("copy", "move") else set()
+                # EVERY success of add_file went through the insert and hands back exactly what it displaced: an Ok that answers a
+                # constant None for an entry that was (and stays) registered makes the caller's undo remove it
+                if not (leaves and all(l.kind == "call" and l.detail[2] in ins_blocks for l in leaves)) or not any(af.dominates(ib, b2) for ib in ins_blocks):
+                    ok = False
+            rep.add("C10.UNDO", "C10.UNDO:add_file:returns-previous", ok, af.where(0), "every Ok of add_file is dominated by the templates.insert and returns the previous value that "
+                    "insert displaced" + ("" if ok else " — VIOLATED"))
             pushed = False
             for b in bodies:
                 if b is root:
